@@ -95,7 +95,11 @@ def _plan(tier, seed):
 # rows 3-6: the SAME cell on both sides, spelled in different ways (reflexivity: = <= >= hold, < > <> do not, whatever the value)
 SELF_FORMS = {3: 'A2{op}A2', 4: '$A$2{op}A2', 5: 'S1!A2{op}A$2', 6: "B2{op}'S1'!$B$2"}
 SELF_CELLS = {(row, op): f'{c[0]}{row}' for row in SELF_FORMS for op, c in CELLS.items()}
+# a negation written in the sheet (the library has no NOT): two comparisons in one formula group from the left, (A2 op B2)=FALSE
+NEG_FORMS = {8: ('A2{op}B2=FALSE', True), 9: ('A2{op}B2<>TRUE', True), 10: ('A2{op}B2=TRUE', False), 11: ('(A2{op}B2)=(B2{op}A2)', None)}
+NEG_CELLS = {(row, op): f'{c[0]}{row}' for row in NEG_FORMS for op, c in CELLS.items()}
 SWEEP_SPEC = wbspec.spec(wbspec.sheet('S1', {'A2': 1, 'B2': 2, **{c: f'=A2{op}B2' for op, c in CELLS.items()},
+                                             **{NEG_CELLS[(row, op)]: '=' + form.format(op=op) for row, (form, _) in NEG_FORMS.items() for op in OPS},
                                              **{SELF_CELLS[(row, op)]: '=' + form.format(op=op) for row, form in SELF_FORMS.items() for op in OPS}}))
 
 
@@ -196,6 +200,15 @@ def run_override(shard, ctx):
                 for (row, op), o in zip(keys, so):
                     if _as_bool(o) is not EQ_ROW[op] and not (kind == 'text' and nan_text(vals[i] if row < 6 else vals[j])):
                         bad.append(f'reflexivity: {SELF_FORMS[row].format(op=op)} gives {o.brief()}')
+            if (i * 7 + j) % 4 == 0 and all(v is not None for v in res.values()):
+                keys = sorted(k for k in NEG_CELLS if k[0] != 11)
+                so = book.values(0, [NEG_CELLS[k] for k in keys], [(0, 'A2', vals[i]), (0, 'B2', vals[j])])
+                r.ev(len(keys))
+                r.count('negation_in_sheet_checks', len(keys))
+                for (row, op), o in zip(keys, so):
+                    want = (not res[op]) if NEG_FORMS[row][1] else res[op]
+                    if _as_bool(o) is not want:
+                        bad.append(f'{NEG_FORMS[row][0].format(op=op)} gives {o.brief()} although A2{op}B2 is {res[op]}')
             if bad:
                 report(r, ID, classify(kind, a, b, bad), case, {op: res[op] for op in OPS}, bad[:4], monitor='compare-laws')
             if i != j:
